@@ -438,6 +438,34 @@ def check_const_build(lname):
                        "how": "Layout.const(init).as_bits() against an all-zero value with the fields assigned in order"}
         res["obligations"].append({"name": f"{name}::const-initialisers-of-other-widths", "kind": "post", "status": "proved" if bad is None else "refuted",
                                    "backend": "closed", "time_s": 0.0, **({} if bad is None else {"failing_input": bad})})
+    # the ORDER of the initialiser: const(init) is the all-zero value with the fields assigned in the order in which init names
+    # them -- it matters exactly when fields overlap (flexible layouts, unions are limited to one field): every order of every
+    # subset of the scalar fields, two value patterns
+    chosen = [kf for kf in top_fields if scalar(kf[1].shape) and not isinstance(kf[1].shape, range)]
+    if len(chosen) >= 2 and not is_union and any(overlaps(f1, f2) for (k1, f1) in chosen for (k2, f2) in chosen if k1 != k2):
+        import itertools as _it
+        bad2, n2 = None, 0
+        for r in range(2, min(len(chosen), 4) + 1):
+            for perm in _it.permutations(chosen, r):
+                for pattern in (0, 1):
+                    n2 += 1
+                    init = {}
+                    want = 0
+                    for j, (key, f) in enumerate(perm):
+                        v = (mask(f.width) if (j + pattern) % 2 == 0 else (0b0101 & mask(f.width)))
+                        sh_ = A.Shape.cast(f.shape)
+                        init[key] = norm(v, sh_.width, sh_.signed)
+                        m_ = mask(f.width) << f.offset
+                        want = (want & ~m_) | ((v << f.offset) & m_)
+                    try:
+                        got = layout.const(init).as_bits()
+                    except Exception as e:
+                        got = repr(e)[:100]
+                    if got != want and bad2 is None:
+                        bad2 = {"layout": repr(layout), "initialiser (in this order)": {str(k): v for k, v in init.items()}, "as_bits()": got,
+                                "expected": want, "how": "Layout.const(init).as_bits() against an all-zero value with the fields assigned in init order"}
+        res["obligations"].append({"name": f"{name}::initialiser-order-is-assignment-order", "kind": "post", "status": "proved" if bad2 is None else "refuted",
+                                   "backend": "closed", "time_s": 0.0, **({} if bad2 is None else {"failing_input": bad2})})
     return res
 
 
